@@ -18,7 +18,7 @@ Record onode := ON {
 
 Record scase := SC {
   s_cfg : opcfg;                     (* the operator's lists as assigned to the config *)
-  s_files : exclusion_files;         (* the --exclusion-file files written for the case: their lines *)
+  s_files : list bytes;              (* the --exclusion-file files written for the case: their CONTENT, byte for byte *)
   s_eff : list bytes;                (* config.Get().ExcludeHosts after GenerateCrawlConfig() *)
   s_eff_re : list bytes;             (* config.Get().ExclusionRegexes after it: each expression's String() *)
   s_in : item;                       (* the tree before *)
@@ -66,7 +66,7 @@ Fixpoint bytes_list_eqb (a c : list bytes) : bool :=
    with Go's regexp from the lines of ALL files, not from the implementation's compiled list. *)
 Definition diff_case (c : scase) : bool :=
   negb (bytes_list_eqb (exc_hosts (gen_cfg (s_cfg c))) (s_eff c))
-  || negb (bytes_list_eqb (gen_regexes (s_files c)) (s_eff_re c))
+  || negb (bytes_list_eqb (gen_regexes_raw (s_files c)) (s_eff_re c))
   || match preprocess (case_oracle c) (s_in c) with
      | Ok t => s_panic c || negb (item_eqb t (s_out c))
      | Panic _ => negb (s_panic c)
